@@ -40,6 +40,10 @@ def corrupt(rec, mode):
             j = max(range(len(r["b"])), key=lambda i: abs(r["b"][i]))
             if r["b"][j] == 0: return None
             r["b"][j] = bump(r["b"][j], 200)
+        elif e == "KScale":
+            if r["vb"] == 0: return None
+            r["vb"] = bump(r["vb"], 200)
+        elif e == "KOnes": r["gb"][-1] += 1
         elif e == "Uniform": r["nz"] = [[1, 3]]
         elif e == "Local": r["b"] += 1
         elif e == "PSD":
